@@ -14,7 +14,7 @@ log = open("/tmp/seedconfirm-%s-%s.log" % (prop, n)).read()
 assert log.strip().endswith("CONFIRMED") and "NOT-CONFIRMED" not in log, "not confirmed"
 meta = dict(property=prop, id=sid, breaks=breaks, needs_to_manifest=needs,
             origin="independent sub-agent given only the property text and a scratch worktree",
-            confirmed=dict(how="tools/seed_confirm.sh in a scratch worktree of /repo: patch applies and builds; demo_test.go fails with the patch and passes without; tests of the touched packages pass with the patch (ignoring TestNetDialCancelContext, TestNetDialTimeout, TestRelayStalledConnection)",
+            confirmed=dict(how="tools/seed_confirm.sh in a scratch worktree of /repo: patch applies and builds; demo_test.go fails with the patch and passes without; tests of the touched packages pass with the patch (ignoring the baseline's always-failing TestNetDialCancelContext/TestNetDialTimeout, its flaky TestRelayStalledConnection, and TestRelayRaceCompletionAndTimeout / TestCancelWithoutSendCancelOnContextCanceled / TestRetryNetConnect, which fail intermittently on the pristine tree too when the sandbox is loaded)",
                            log_tail=log.strip().split("\n")[-3:]),
             detection=detected)
 json.dump(meta, open(dst + "/meta.json", "w"), indent=1)
